@@ -121,6 +121,7 @@ CASES = [
     ("po2_kernel", [("QDense", "d1", ["quantized_po2(4)", "quantized_bits(4,0,1)"], [(2, 1), (1,)])]),
     ("auto_po2_kernel", [("QDense", "d1", ["quantized_bits(4,0,1,alpha='auto_po2')", "quantized_relu_po2(4)"], [(2, 2), (2,)])]),
     ("binary_kernel_plain_bias", [("QConv2D", "c1", ["binary(alpha=1)", None], [(1, 1, 1, 2), (2,)])]),
+    ("po2_kernel_relu_po2_bias", [("QDense", "d1", ["quantized_po2(4)", "quantized_relu_po2(4)"], [(1, 1), (1,)])]),
     ("two_layers", [("QDense", "d1", ["quantized_bits(4,0,1,alpha=1)", "quantized_po2(4)"], [(1, 1), (1,)]), ("Dense", "plain", None, [(1, 1), (1,)]),
                     ("QDense", "d2", ["ternary(alpha=1)", None], [(1, 2), (2,)])]),
 ]
@@ -416,7 +417,7 @@ def replay(body):
 
 def run(tier, seed):
   r = harness.Run(PROP, "model_checking", tier, seed)
-  cases = CASES if tier == "thorough" else CASES[:3]
+  cases = CASES if tier == "thorough" else CASES[:4]
   for cname, case_layers in cases:
     try:
       one_case(r, cname, case_layers)
